@@ -76,8 +76,10 @@ theorem readLen_acct (cfg : Cfg) (n : Int) (d : Dec) : Acct d (readLen cfg n d) 
   · split
     · split <;> trivial
     · split
-      · exact ⟨d.inp.take n.toNat, (List.take_append_drop _ _).symm, by simp only [List.length_take]; omega⟩
       · trivial
+      · split
+        · exact ⟨d.inp.take n.toNat, (List.take_append_drop _ _).symm, by simp only [List.length_take]; omega⟩
+        · trivial
 
 theorem allocElems_acct (cfg : Cfg) (n : Int) (d : Dec) : Acct d (allocElems cfg n d) := by
   unfold allocElems
@@ -85,7 +87,9 @@ theorem allocElems_acct (cfg : Cfg) (n : Int) (d : Dec) : Acct d (allocElems cfg
   · split <;> trivial
   · split
     · split <;> trivial
-    · exact acct_ok d _
+    · split
+      · trivial
+      · exact acct_ok d _
 
 theorem tagCount_acct (cfg : Cfg) (u : Nat) (d : Dec) : Acct d (tagCount cfg u d) := by
   unfold tagCount
@@ -205,13 +209,22 @@ theorem da_unit (cfg : Cfg) (flex : Bool) : DA cfg (.unit flex) := by
       bind_acct (taggedLoop_acct cfg _ (fun id idx dec h => by simp at h) k _ d2) fun _ d3 => acct_ok d3 _
   · exact acct_ok d _
 
-theorem da_records (cfg : Cfg) : DA cfg .records := by
+/-- a detailed record-set reader plugged into the frame decoder (`Cfg.recs`, C20's Model/CodecRecords.lean) must itself account
+for the bytes it takes; with `recs = none` (the opaque-payload view, what `Gen.decoderCfg` is) this is vacuous -/
+def RecsAcct (cfg : Cfg) : Prop := ∀ h, cfg.recs = some h → ∀ d, Acct d (h d)
+
+theorem recsAcct_none (cfg : Cfg) (h : cfg.recs = none) : RecsAcct cfg := fun _ hh => by rw [h] at hh; cases hh
+
+theorem da_records (cfg : Cfg) (hr : RecsAcct cfg) : DA cfg .records := by
   intro d
   simp only [decode]
-  exact bind_acct (readInt_acct 4 d) fun n d1 => by
-    split
-    · exact acct_ok d1 _
-    · exact bind_acct (readLen_acct cfg _ d1) fun _ d2 => acct_ok d2 _
+  split
+  · rename_i h heq
+    exact hr h heq d
+  · exact bind_acct (readInt_acct 4 d) fun n d1 => by
+      split
+      · exact acct_ok d1 _
+      · exact bind_acct (readLen_acct cfg _ d1) fun _ d2 => acct_ok d2 _
 
 theorem da_prim (cfg : Cfg) (t : Ty) (k : Nat) (f : Bytes → Val)
     (h : ∀ d, decode cfg t d = (readN k d).bind fun bs d => .ok (f bs) d) : DA cfg t := by
@@ -222,7 +235,7 @@ theorem da_int (cfg : Cfg) (t : Ty) (k : Nat)
   intro d; rw [h]; exact bind_acct (readInt_acct k d) fun _ d1 => acct_ok d1 _
 
 mutual
-theorem da_all (cfg : Cfg) (t : Ty) : DA cfg t :=
+theorem da_all (cfg : Cfg) (hr : RecsAcct cfg) (t : Ty) : DA cfg t :=
   match t with
   | .bool => da_prim cfg _ 1 (fun bs => .bool (fromBE bs != 0)) (fun _ => by simp [decode])
   | .int8 => da_int cfg _ 1 (fun _ => by simp [decode])
@@ -232,18 +245,18 @@ theorem da_all (cfg : Cfg) (t : Ty) : DA cfg t :=
   | .float64 => da_prim cfg _ 8 (fun bs => .int (fromBE bs)) (fun _ => by simp [decode])
   | .string c n => da_string cfg c n
   | .bytes c n => da_bytes cfg c n
-  | .array c n t => da_array cfg c n t (da_all cfg t)
-  | .struct flex fs ids ts => da_struct cfg flex fs ids ts (da_list cfg fs) (da_list cfg ts)
+  | .array c n t => da_array cfg c n t (da_all cfg hr t)
+  | .struct flex fs ids ts => da_struct cfg flex fs ids ts (da_list cfg hr fs) (da_list cfg hr ts)
   | .unit flex => da_unit cfg flex
-  | .records => da_records cfg
+  | .records => da_records cfg hr
 termination_by structural t
-theorem da_list (cfg : Cfg) (ts : List Ty) : ∀ t ∈ ts, DA cfg t :=
+theorem da_list (cfg : Cfg) (hr : RecsAcct cfg) (ts : List Ty) : ∀ t ∈ ts, DA cfg t :=
   match ts with
   | [] => fun _ h => by simp at h
   | t :: ts => fun t' h => by
     rcases List.mem_cons.1 h with h | h
-    · exact h ▸ da_all cfg t
-    · exact da_list cfg ts t' h
+    · exact h ▸ da_all cfg hr t
+    · exact da_list cfg hr ts t' h
 termination_by structural ts
 end
 
@@ -308,10 +321,10 @@ theorem readInt4_prefix (stream : Bytes) :
 
 theorem bind_ok {α β : Type} (a : α) (d : Dec) (f : α → Dec → Res β) : (Res.ok a d).bind f = f a d := rfl
 
-theorem respTail_acctz (cfg : Cfg) (flex : Bool) (t : Ty) (d : Dec) : AcctZ d (respTail cfg flex t d) := by
+theorem respTail_acctz (cfg : Cfg) (hr : RecsAcct cfg) (flex : Bool) (t : Ty) (d : Dec) : AcctZ d (respTail cfg flex t d) := by
   unfold respTail
   refine bind_acctz (readInt_acct 4 d) fun corr d1 => ?_
-  refine bind_acctz ?_ fun _ d2 => bind_acctz (da_all cfg t d2) fun v d3 => discardAll_acctz d3 (corr, v)
+  refine bind_acctz ?_ fun _ d2 => bind_acctz (da_all cfg hr t d2) fun v d3 => discardAll_acctz d3 (corr, v)
   split
   · exact bind_acct (readUvarint_acct d1) fun n d2 => bind_acct (tagCount_acct cfg n d2) fun k d3 => skipHeaderTags_acct cfg k d3
   · exact acct_ok d1 _
@@ -319,7 +332,7 @@ theorem respTail_acctz (cfg : Cfg) (flex : Bool) (t : Ty) (d : Dec) : AcctZ d (r
 /-- **protocol.ReadResponse, structurally** (Model/Codec.lean `readResponse`, every schema, bounded or not, flexible or
 not): when it returns a message, the stream held the 4-byte prefix and the whole announced frame, exactly those
 bytes were consumed, and `remain` is 0 — this is the `Decoder` contract of Props/C17, proved instead of assumed. -/
-theorem readResponse_ok_consumes_frame (cfg : Cfg) (flex : Bool) (t : Ty) (stream : Bytes) (r : Int × Val) (d : Dec)
+theorem readResponse_ok_consumes_frame (cfg : Cfg) (hr : RecsAcct cfg) (flex : Bool) (t : Ty) (stream : Bytes) (r : Int × Val) (d : Dec)
     (h : readResponse cfg flex t stream = .ok r d) :
     4 ≤ stream.length ∧ 0 ≤ announced stream ∧ 4 + (announced stream).toNat ≤ stream.length ∧
     d.inp = stream.drop (4 + (announced stream).toNat) ∧ d.remain = 0 := by
@@ -330,7 +343,7 @@ theorem readResponse_ok_consumes_frame (cfg : Cfg) (flex : Bool) (t : Ty) (strea
     · rw [if_pos hneg] at h
       split at h <;> cases h
     · rw [if_neg hneg] at h
-      have key := respTail_acctz cfg flex t ⟨stream.drop 4, (announced stream).toNat⟩
+      have key := respTail_acctz cfg hr flex t ⟨stream.drop 4, (announced stream).toNat⟩
       simp only at h
       rw [h] at key
       obtain ⟨⟨pre, hp, hl⟩, hz⟩ := key
@@ -346,11 +359,11 @@ theorem readResponse_ok_consumes_frame (cfg : Cfg) (flex : Bool) (t : Ty) (strea
 
 /-- … hence on ANY strict prefix of a frame — cut inside the size prefix, the correlation id, the tag buffer, the body,
 a record set — the structural decoder does not return a message -/
-theorem readResponse_cut_structural (cfg : Cfg) (flex : Bool) (t : Ty) (frame : Bytes)
+theorem readResponse_cut_structural (cfg : Cfg) (hr : RecsAcct cfg) (flex : Bool) (t : Ty) (frame : Bytes)
     (hframe : frame.length = 4 + (announced frame).toNat) (hpos : 0 ≤ announced frame) (k : Nat) (hk : k < frame.length)
     (r : Int × Val) (d : Dec) : readResponse cfg flex t (frame.take k) ≠ .ok r d := by
   intro h
-  obtain ⟨h4, _, hlen, _, _⟩ := readResponse_ok_consumes_frame cfg flex t (frame.take k) r d h
+  obtain ⟨h4, _, hlen, _, _⟩ := readResponse_ok_consumes_frame cfg hr flex t (frame.take k) r d h
   have hk4 : 4 ≤ k := by simp only [List.length_take] at h4; omega
   have hann : announced (frame.take k) = announced frame := by
     unfold announced
